@@ -22,6 +22,7 @@ type srcSpec struct {
 	FailErr  int
 	FailOnce bool // the source reports its error from one Read call only and would go on afterwards
 	NoCloser bool
+	CloseErr bool // the source's Close reports an error (it is closed all the same)
 }
 
 type multiCase struct {
@@ -43,6 +44,9 @@ func checkMulti(c multiCase) string {
 	for i, s := range c.Srcs {
 		d := data(s.Len, byte(i+1)*0x11)
 		sr := &vk.ScriptReader{Data: d, Chunks: s.Chunks, EOFWith: s.EOFWith, FailAt: s.FailAt, FailWith: s.FailWith, FailOnce: s.FailOnce, Err: vk.FaultErrors[s.FailErr%len(vk.FaultErrors)]}
+		if s.CloseErr {
+			sr.CloseErr = errSrcClose
+		}
 		srcs = append(srcs, sr)
 		if s.NoCloser {
 			readers = append(readers, vk.ReaderOnly{R: sr})
@@ -123,8 +127,11 @@ func trunc(b []byte) []byte {
 	return b
 }
 
+var errSrcClose = errors.New("verif: the source's Close failed")
+
 func genSrc(rt *rapid.T, label string, allowFault bool) srcSpec {
 	s := srcSpec{
+		CloseErr: rapid.IntRange(0, 5).Draw(rt, label+".closeErr") == 0,
 		Len:      rapid.OneOf(rapid.IntRange(0, 6), rapid.IntRange(0, 70)).Draw(rt, label+".len"),
 		Chunks:   vk.GenChunks(rt, label, 40),
 		EOFWith:  rapid.Bool().Draw(rt, label+".eofWith"),
@@ -253,10 +260,11 @@ type teeCase struct {
 	WFailAt  int
 	WCloser  bool
 	Consumer []int
+	Retry    bool // the consumer reads on after a non-EOF error (a source may report an error once and then go on)
 }
 
 func (c teeCase) String() string {
-	return fmt.Sprintf("tee{src=%+v wFailAt=%d wCloser=%v consumer=%v}", c.Src, c.WFailAt, c.WCloser, c.Consumer)
+	return fmt.Sprintf("tee{src=%+v wFailAt=%d wCloser=%v consumer=%v retry=%v}", c.Src, c.WFailAt, c.WCloser, c.Consumer, c.Retry)
 }
 
 func checkTee(c teeCase) string {
@@ -273,6 +281,33 @@ func checkTee(c teeCase) string {
 		w = recWriteCloser{rw}
 	}
 	tee := streams.NewTeeReadCloser(r, w)
+	if c.Retry && c.WFailAt < 0 && c.Src.FailAt >= 0 && c.Src.FailAt <= c.Src.Len {
+		// a consumer that goes on after an error sees through the tee what it would see on the source itself: with a
+		// one-shot error everything up to the real end (and the writer got all of it), with a sticky one the error again
+		out, err := consume(tee, c.Consumer)
+		if !errors.Is(err, srcErr) {
+			return fmt.Sprintf("source failed with %v but stream reported %v", srcErr, err)
+		}
+		more, err2 := consume(tee, c.Consumer)
+		out = append(out, more...)
+		if c.Src.FailOnce {
+			if err2 != nil {
+				return fmt.Sprintf("the source reported its error once and then went on to its end, but reading on through the tee ended with %v after %d of %d bytes", err2, len(out), len(d))
+			}
+			if !bytes.Equal(out, d) || !bytes.Equal(rw.buf.Bytes(), d) {
+				return fmt.Sprintf("the source reported its error once and then went on to its end: the consumer reading on got %d bytes and the writer %d, the source has %d", len(out), rw.buf.Len(), len(d))
+			}
+		} else {
+			if !errors.Is(err2, srcErr) || len(more) != 0 {
+				return fmt.Sprintf("the source's error is sticky, but reading on through the tee gave %d more bytes and %v", len(more), err2)
+			}
+		}
+		_ = tee.Close()
+		if !c.Src.NoCloser && src.Closes != 1 {
+			return fmt.Sprintf("after Close the source was closed %d times", src.Closes)
+		}
+		return ""
+	}
 	out, err := consume(tee, c.Consumer)
 	avail := d
 	srcFault := c.Src.FailAt >= 0 && c.Src.FailAt <= c.Src.Len
@@ -337,6 +372,7 @@ func TestTeeRapid(t *testing.T) {
 		if len(c.Consumer) == 1 && c.Consumer[0] == -2 {
 			c.Consumer = []int{-1}
 		}
+		c.Retry = rapid.Bool().Draw(rt, "retry")
 		if msg := checkTee(c); msg != "" {
 			rt.Fatalf("C16 tee violated: %s\ncase: %s", msg, c)
 		}
